@@ -32,7 +32,9 @@ val iface_extends : node -> node list
 
 val iface_body : node -> node list
 
-val register_ts_decl : env -> node -> st -> st
+val register_ts_decl : node -> st -> st
+
+val collect_ts_decls : env -> (node -> node list) -> node -> st -> st
 
 type relem =
 | RProp of node * bool * bool * node
